@@ -19,7 +19,7 @@ pub fn create(
     if index.return_type() != Type::Int {
         return Err(Error::CannotIndexWith(index.str));
     }
-    if !instruction_return_type.can_be_indexed() {
+    if instruction_return_type == Type::Never || !instruction_return_type.can_be_indexed() {
         return Err(Error::CannotIndexInto(instruction_return_type));
     }
     Ok(BinOperation {
